@@ -60,8 +60,10 @@ Theorem C03_flatten : forall l n, wf_larr_b n l = true ->
 Proof. exact la_flatten_spec. Qed.
 Print Assumptions C03_flatten.
 
-(* The hypothesis norm_missing cannot be dropped: the faithful model (and the real code,
-   known finding KF-hidden-children) counts the hidden records of a missing row. *)
+(* The hypothesis norm_missing cannot be dropped: on a layout whose missing rows still span elements the faithful model
+   (and the real views, were such an array ever stored) counts the hidden records of a missing row.  This was the finding
+   KF-hidden-children; since the repairs ce52946 / 78d47a4 the constructor and the assignments re-encode such input
+   (C01_constructor_normalises), so no constructed array is in that layout any more. *)
 Definition hidden_witness : chunked :=
   {| ctype := [("a"%string, TI64)];
      chunks := [ {| svalid := [true; false];
